@@ -416,7 +416,7 @@ def run(ctx: Ctx) -> None:
     ctx.sample({"source": "tlc-exhaustive", "min0": behs[0]["min0"], "ops": [s["op"] for s in behs[0]["steps"]]})
 
     # ---- 3. spec -> code: longer simulated behaviours ------------------------------------------------
-    nsim, depth = ctx.pick(300, 4000), ctx.pick(6, 9)
+    nsim, depth = ctx.pick(300, 3000), ctx.pick(6, 9)
     sres = run_tlc("seq/ValueStore_Gen.tla", cfg("GSpec", BOTH, ALLSZ, "{1, 2}", depth, DEVS, ""), ctx.scratch,
                    workers=1, simulate=f"num={nsim}", depth=depth + 2, seed=ctx.seed + 1, timeout=1500)
     ctx.require(sres.error is None and not sres.violated, f"simulate failed: {sres.error} {sres.violated}")
@@ -432,7 +432,7 @@ def run(ctx: Ctx) -> None:
     ctx.note("asbuilt_drift", stats.get("drift", 0) + stats.get("loc-drift", 0))
 
     # ---- 4. code -> spec: random executions validated by TLC -------------------------------------
-    ntr = ctx.pick(200, 3000)
+    ntr = ctx.pick(200, 2000)
     traces = [gen_random_trace(ctx.rng, w, f"r{n}", ctx.rng.randint(6, 18)) for n in range(ntr)]
     # the minimal history of the deviation (TLC's counterexample of the control run), judged by TLC
     small = ["plain", "small", 1]
